@@ -1,6 +1,6 @@
 CONSTANTS
   Letters = {97}
-  MaxKeys = 6
+  MaxKeys = 8
   MaxEnters = 3
   EmitOn = TRUE
 INIT MCInit
